@@ -113,6 +113,10 @@ def r10_2(run):
         ok = _const_guarded(run, fi, cfg, node, recv)
         why = f"dominated by the non-constant edge of a `{recv}.constant` test"
         construct = f"value store to {recv}._grad"
+        if not ok and val is not None and norm(val) == f"{recv}.grad":
+            # the tensor's own slot is set to what its grad property already reports; a constant tensor reports None
+            # (owners never receive a gradient, views: the getter's constant guard, checked below)
+            ok, why = True, f"re-stores {recv}.grad, the value the tensor itself reports (None for constant tensors: obligation discharged at the getter)"
         if not ok and fi.short == "nnet.layers.gru.GRUnit.backward":
             # exemption (DESIGN App. C): the op's own output; a constant tensor's creator is never scheduled
             src = fi.cls.methods.get("backward")
